@@ -648,6 +648,11 @@ pub(crate) fn run(
                         // Referenced group hasn't matched, so the backref doesn't match either
                         break 'fail;
                     }
+                    if lo > hi {
+                        // The group was re-entered (start updated) but its end is still the one
+                        // of an earlier iteration: there is no captured text to refer to
+                        break 'fail;
+                    }
                     let ref_text = &s[lo..hi];
                     let ix_end = ix + ref_text.len();
                     if !matches_literal(s, ix, ix_end, ref_text) {
